@@ -227,6 +227,10 @@ _NA = {
     "C20": "dates, fractions and JSON serialisation are written in the xray language (include.rs), for which no deductive verifier exists; the Rust remainder is delegated to serde_json / num-bigint",
 }
 NOT_APPLICABLE = dict(_NA)
-for _p in ["C06", "C07", "C09", "C11", "C13", "C15", "C16", "C18", "C19"]:
-    if _p not in CLAIMS:
-        NOT_APPLICABLE[_p] = "not claimed yet: the unit described in DESIGN.md for this property is not built at this commit"
+NOT_APPLICABLE.update({
+    "C06": "propagation is `?`/early-return macros enforced by Rust's types; the hand-written forwarding code (element closures of XGenerator::_iter's adaptors) sits inside iterator adaptor calls with dyn-Any downcast macros, Result::and_then closures and nested collect: outside Verus' dialect without a hand-tuned rewrite per closure, and behind the evaluator for Kani (DESIGN.md section 6)",
+    "C18": "measured: the smallest Kani harness on FencedString::from_string (<= 2 chars) exhausted 65 GB in CBMC (String / char_indices); Verus has no byte-level str reasoning for the dual representation (buffer[start_byte..end_byte], char_starts) -- no contract within reach can state the invariant (DESIGN.md section 6)",
+})
+for _p in list(NOT_APPLICABLE):
+    if _p in CLAIMS:
+        del NOT_APPLICABLE[_p]
